@@ -28,13 +28,11 @@ Definition raw_set_narration (t : txn) (v : option Z) : txn :=
             end in
   mktxn (t_s0 t) (t_s1 t) v'.                      (* self.raw_string2 = value *)
 
-(* raw_payee.setter *)
+(* raw_payee.setter: string1 is assigned first (it may refuse the value), then the implied narration *)
 Definition raw_set_payee (t : txn) (v : option Z) : txn :=
-  let t1 := match v, raw_narration t with
-            | Some _, None => raw_set_narration t (Some EMPTY)
-            | _, _ => t
-            end in
-  mktxn (t_s0 t1) v (t_s2 t1).                     (* self.raw_string1 = value *)
+  let needs_narration := match v, raw_narration t with Some _, None => true | _, _ => false end in
+  let t1 := mktxn (t_s0 t) v (t_s2 t) in          (* self.raw_string1 = value *)
+  if needs_narration then raw_set_narration t1 (Some EMPTY) else t1.
 
 (* optional_string_property.__set__: update in place when both present, else the raw setter *)
 Definition set_payee (t : txn) (v : option Z) : txn :=
@@ -84,27 +82,53 @@ Definition tinv_b (t : txn) : bool :=
   match t_s0 t with Some _ => false | None =>
     match t_s1 t, t_s2 t with Some _, None => false | _, _ => true end end.
 
-(* ---- a plain optional value property over a record of independent slots -------------------
-   (optional_string/decimal/date_property on an optional_node_property of a generated class)
-   slots are numbered; a slot holds the value of the node, None when the node is absent *)
-Definition slots := list (option Z).
+(* ---- value properties over a record of independent slots ---------------------------------------
+   internal/value_properties.py: required_value_property and optional_{string,indented_string,decimal,
+   date}_property on top of required_/optional_node_property of a generated class.
+   A slot holds the node of one field (None = absent optional field); a node has an identity and a
+   token text.  The codec of slot i (inner type's from_value/_format_value and _parse_value; C12) is a
+   parameter.  Values are opaque Z codes. *)
+Section ValueProps.
+  Variable T : Type.                      (* token text *)
+  Variable fmt : nat -> Z -> T.           (* slot i: text of inner_type.from_value(v) = text after node.value = v *)
+  Variable parse : nat -> T -> Z.         (* slot i: node.value *)
 
-Fixpoint slot_get (d : slots) (i : nat) : option Z :=
-  match d, i with
-  | [], _ => None
-  | x :: _, O => x
-  | _ :: r, S j => slot_get r j
-  end.
+  Record vnode := mkvnode { vn_id : Z; vn_text : T }.
+  Record vrec := mkvrec { vr_slots : list (option vnode); vr_next : Z }.   (* vr_next: next fresh identity *)
 
-Fixpoint slot_put (d : slots) (i : nat) (v : option Z) : slots :=
-  match d, i with
-  | [], _ => []
-  | _ :: r, O => v :: r
-  | x :: r, S j => x :: slot_put r j v
-  end.
+  Fixpoint vput (l : list (option vnode)) (i : nat) (x : option vnode) : list (option vnode) :=
+    match l, i with
+    | [], _ => []
+    | _ :: r, O => x :: r
+    | y :: r, S j => y :: vput r j x
+    end.
 
-Definition slot_set (d : slots) (i : nat) (v : option Z) : slots :=
-  match slot_get d i, v with
-  | Some _, Some x => slot_put d i (Some x)      (* current.value = value *)
-  | _, _ => slot_put d i v                       (* inner_property.__set__(from_value(value) | None) *)
-  end.
+  (* _get: inner.value if inner is not None else None *)
+  Definition vget (r : vrec) (i : nat) : option Z :=
+    match nth_error (vr_slots r) i with
+    | Some (Some n) => Some (parse i (vn_text n))
+    | _ => None
+    end.
+
+  (* optional_*_property.__set__ *)
+  Definition opt_set (r : vrec) (i : nat) (v : option Z) : vrec :=
+    match nth_error (vr_slots r) i, v with
+    | Some (Some n), Some x =>              (* current.value = value: same node, new text *)
+      mkvrec (vput (vr_slots r) i (Some (mkvnode (vn_id n) (fmt i x)))) (vr_next r)
+    | Some None, Some x =>                  (* inner.__set__(inner_type.from_value(value)): a new node *)
+      mkvrec (vput (vr_slots r) i (Some (mkvnode (vr_next r) (fmt i x)))) (vr_next r + 1)
+    | Some _, None =>                       (* inner.__set__(None): the node is removed *)
+      mkvrec (vput (vr_slots r) i None) (vr_next r)
+    | None, _ => r
+    end.
+
+  (* required_value_property.__set__: inner.value = value (the node is always there) *)
+  Definition req_set (r : vrec) (i : nat) (x : Z) : vrec * res unit :=
+    match nth_error (vr_slots r) i with
+    | Some (Some n) => (mkvrec (vput (vr_slots r) i (Some (mkvnode (vn_id n) (fmt i x)))) (vr_next r), Ok tt)
+    | _ => (r, Err ModelStuck)
+    end.
+End ValueProps.
+Arguments mkvnode {T}. Arguments vn_id {T}. Arguments vn_text {T}.
+Arguments mkvrec {T}. Arguments vr_slots {T}. Arguments vr_next {T}.
+Arguments vput {T}. Arguments vget {T}. Arguments opt_set {T}. Arguments req_set {T}.
